@@ -26,7 +26,12 @@ SPEC = [
     (0x2020, "rec", [(0, 0x05, "ro", 4), (1, 0x06, "rw", 1), (2, 0x07, "ro", 2), (4, 0x05, "wo", 9),
                      (5, 0x04, "rw", None)]),
     (0x2030, "arr", [(0, 0x05, "ro", 2), (1, 0x03, "rw", -5), (2, 0x03, "rw", 6)]),
+    # arrays whose elements are not freely accessible: members that are not listed are created on demand
+    (0x2031, "arr", [(0, 0x05, "ro", 3), (1, 0x06, "ro", 0x77)]),
+    (0x2032, "arr", [(0, 0x05, "ro", 3), (1, 0x06, "wo", 0x78)]),
+    (0x2033, "arr", [(0, 0x05, "ro", 3), (1, 0x07, "const", 0x79)]),
 ]
+SUB_SCOPE = [0x2020, 0x2030, 0x2031, 0x2032, 0x2033]
 
 
 def build_od():
@@ -79,7 +84,7 @@ def _addr(scope):
     """symbolic address; 'var': any index with sub 0; 'sub': record/array index with any sub"""
     if scope == "var":
         return sx.fresh_int("idx", 0, 0xFFFF), 0
-    idx = [0x2020, 0x2030][sx.choice(2, "which")]
+    idx = SUB_SCOPE[sx.choice(len(SUB_SCOPE), "which")]
     return idx, sx.fresh_int("sub", 0, 0xFF)
 
 
@@ -103,6 +108,12 @@ def _pre(cli, rig, pre):
     elif pre == "download":
         r = cli.download(0x2000, 0, list(b"0123456789"), "seg-size")
         sx.prove(r is None, "preceding download failed", "C06/history/pre-download")
+    elif pre == "open-download":
+        # a segmented download to 0x2000 is left open: initiated, one segment confirmed, not finished
+        r = cli.xfer([0x20, 0x00, 0x20, 0x00, 0, 0, 0, 0])
+        sx.prove(r is not None and r[0] == 0x60, "preceding initiate failed", "C06/history/pre-open")
+        r = cli.xfer([0x00] + list(b"OPENDAT"))
+        sx.prove(r is not None and r[0] == 0x20, "preceding segment failed", "C06/history/pre-open")
     elif pre == "siblings":
         # successful writes to one member of each record/array: their siblings must behave as before
         for idx in (0x2020, 0x2030):
@@ -120,6 +131,28 @@ def _post(cli, rig):
              "C06/history/post-upload")
     if ok:
         sx.prove(sx.eq_bytes(sx.mkbytes(res[0]), p), "upload after a refusal", "C06/history/post-value")
+
+
+def _late_segment(cli, rig, before, tag, initiate=True):
+    """A download was left open before the refusal (pre-state 'open-download').  A refused *initiate* ends it:
+    a further segment is not a continuation of anything and nothing may be stored.  After a refused
+    non-initiate command the open transfer may go on, but only its own object may change."""
+    extra = [sx.ite(sx.fresh_bool("ltog"), 0x10, 0) | 0x01 | (sx.fresh_int("ln", 0, 7) << 1)] + \
+        sx.items(sx.fresh_bytes("ldata", 7))
+    r = cli.xfer(extra)
+    after = rig.store_snapshot()
+    if initiate:
+        if r is not None:
+            sx.prove(r[0] == 0x80, "a segment of the superseded download was acknowledged after a refused initiate",
+                     tag + "/open-download/late-segment")
+        sx.prove(_same(after, before), "a segment after a refused initiate changed the store",
+                 tag + "/open-download/stored")
+    else:
+        a = {k: v for k, v in after.items() if k != (0x2000, 0)}
+        b = {k: v for k, v in before.items() if k != (0x2000, 0)}
+        sx.prove(_same(a, b), "a segment after a refused command changed another object",
+                 tag + "/open-download/stored")
+    sx.reach("late-segment")
 
 
 def refuse_read(scope, pre="none"):
@@ -152,6 +185,8 @@ def refuse_read(scope, pre="none"):
             sx.reach("read-ok")
     sx.prove(rig.store_snapshot() == before or _same(rig.store_snapshot(), before), "read changed the store",
              tag + "/store-changed")
+    if pre == "open-download":
+        _late_segment(cli, rig, before, tag)
     _post(cli, rig)
 
 
@@ -209,6 +244,10 @@ def refuse_write(scope, n, mode, pre="none"):
             sx.prove(_same(rig.store_snapshot(), before), "a segment after a refused write changed the store",
                      tag + "/late-segment-stored")
             sx.prove(len(seen) == 0, "write callback ran after a refused write", tag + "/late-segment-callback")
+    if pre == "open-download":
+        _late_segment(cli, rig, rig.store_snapshot(), tag)
+        if refused:
+            sx.prove(len(seen) == 0, "write callback ran after a refused write", tag + "/open-download/callback")
     _post(cli, rig)
 
 
@@ -246,6 +285,26 @@ def toggle_error(direction, pre="none"):
     sx.prove((r[1] == 0x00) & (r[2] == 0x20) & (r[3] == 0), "abort carries the multiplexer of the transfer", tag + "/mux")
     if before is not None:
         sx.prove(_same(rig.store_snapshot(), before), "toggle error changed the store", tag + "/store-changed")
+        # The client carries on with the right toggle bit.  A server may treat the transfer as ended by its abort
+        # (nothing stored) or let it go on; if it goes on, the refused segment must have left no trace: what is
+        # finally stored is exactly the data of the accepted segments.
+        c = sx.items(sx.fresh_bytes("c", 7))
+        tg = 0x10 if good else 0x00
+        r2 = cli.xfer([tg | 0x01] + c)
+        if r2 is not None:
+            after = rig.store_snapshot()
+            if bool(r2[0] == 0x80):
+                sx.prove(_same(after, before), "refused continuation changed the store", tag + "/continued/store-changed")
+                sx.reach("toggle-ended")
+            else:
+                exp = (d if good else []) + c
+                got = after.get((0x2000, 0))
+                sx.prove(got is not None and len(sx.items(got)) == len(exp) and sx.eq_bytes(got, sx.mkbytes(exp)),
+                         "the refused segment's data leaked into the stored value", tag + "/continued/stored")
+                others_a = {k: v for k, v in after.items() if k != (0x2000, 0)}
+                others_b = {k: v for k, v in before.items() if k != (0x2000, 0)}
+                sx.prove(_same(others_a, others_b), "continuation changed another object", tag + "/continued/others")
+                sx.reach("toggle-continued")
     sx.reach("toggle-" + direction)
     _post(cli, rig)
 
@@ -277,6 +336,8 @@ def unknown_command(kind, pre="none"):
                  "abort carries the multiplexer of the refused transfer", tag + "/mux")
     sx.prove(_same(rig.store_snapshot(), before), "store changed", tag + "/store-changed")
     sx.reach("unknown-" + kind)
+    if pre == "open-download":
+        _late_segment(cli, rig, before, tag, initiate=(kind == "block"))
     _post(cli, rig)
 
 
@@ -327,7 +388,7 @@ def client_abort(op, at):
 
 def jobs(tier):
     out = []
-    pres = ("none", "upload", "download", "siblings")
+    pres = ("none", "upload", "download", "siblings", "open-download")
     for pre in pres:
         for scope in ("var", "sub"):
             out.append(dict(func="refuse_read", params=dict(scope=scope, pre=pre), weight=20))
